@@ -719,16 +719,20 @@ func runAuthConc(j *check.Job) *check.Result {
 			for _, entry := range []string{"handshake", "smoke-test"} {
 				sc, t1, entry := sc, t1, entry
 				run := func(ch vrt.Chooser) explore.Outcome {
-					s := vrt.NewSched(ch)
-					vrt.ResetClasses()
-					vrt.S = s
 					client := hds.NewClient(hds.WithHagallEndpoint("http://hagall.test"), hds.WithHDSEndpoint("http://127.0.0.1:1"))
 					client.SetServerData("id", sc.initial)
 					held := []string{sc.initial}
 					var viol []explore.Violation
 					admitted, admitted2 := false, false
-					// the wrappers are built once, as cmd/main.go does, and shared by all requests
-					handshake := hagallhttp.VerifyAuthToken(context.Background(), client)
+					// The wrappers are built once, as cmd/main.go does, and shared by all requests.
+					// They are built before the scheduler exists: a background worker a wrapper may
+					// start (a cache sweeper on a ticker, ...) is an ordinary goroutine outside the
+					// exploration, ended through this context afterwards.
+					wctx, wcancel := context.WithCancel(context.Background())
+					handshake := hagallhttp.VerifyAuthToken(wctx, client)
+					s := vrt.NewSched(ch)
+					vrt.ResetClasses()
+					vrt.S = s
 					var enteredBy [2]bool // which request reached the inner handler (marked by a header of the harness)
 					middleware := hagallhttp.VerifyAuthTokenHandler(client, func(_ http.ResponseWriter, r *http.Request) {
 						if r.Header.Get("X-Harness-Request") == "2" {
@@ -774,10 +778,11 @@ func runAuthConc(j *check.Job) *check.Result {
 					s.RunQuiescent()
 					if st := stuck(s); len(st) > 0 {
 						viol = append(viol, explore.Violation{Oracle: "deadlock", Detail: "auth", Info: fmt.Sprint(st)})
-						s.Abort()
 					}
+					s.Abort() // whatever is still parked is unwound
 					s.Join()
 					vrt.S = nil
+					wcancel()
 					ok := false
 					for _, sec := range held {
 						if v := refVerify(t1.Token, sec, now); v == valid || v == dontcare {
